@@ -382,7 +382,19 @@ func (ex *Exec) applyContract(s *State, fr *Frame, c *ssa.Call, f *ssa.Function,
 		}
 	}
 	for _, e := range ct.Ensures {
-		s.assume(post.evalAssume(e.Expr))
+		// a clause about the callee's own locals (its state at the return) says nothing a caller
+		// can use: it is proved when the callee is verified and skipped here
+		func() {
+			defer func() {
+				if r := recover(); r != nil {
+					if u, ok := r.(unsupported); ok && strings.Contains(u.msg, "unknown name") {
+						return
+					}
+					panic(r)
+				}
+			}()
+			s.assume(post.evalAssume(e.Expr))
+		}()
 	}
 	// learn the class tag of every slot the callee may have relinked, if it is determined on
 	// this path (keeps later class dispatches in specifications syntactically resolved)
